@@ -107,6 +107,18 @@ def jobs(tier, seed):
         out.append({"id": f"prefix/{ti:02d}", "fam": "prefix", "text": t, "cuts": cuts, "extra": extra})
     for k in range(1, (3 if tier == "quick" else 4) + 1):
         out.append({"id": f"tokens/{k}", "fam": "tokens", "k": k})
+    # files brought in by directives: every file of PATCH + <= n arbitrary bytes (truncated records, no EOF trailer,
+    # run-length records), every table file of <= n characters
+    for n in range(0, 7 + 1):
+        out.append({"id": f"file/ips-reader/{n}", "fam": "ipsfile", "n": n, "unit": True})
+    # one complete record (plain / run-length with a count <= 3) followed by <= n arbitrary bytes
+    for kind in ("plain", "rle"):
+        for n in range(0, (5 if tier == "quick" else 7) + 1):
+            out.append({"id": f"file/ips-reader/{kind}+{n}", "fam": "ipsfile", "n": n, "unit": True, "first": kind})
+    for n in range(0, (3 if tier == "quick" else 4) + 1):
+        out.append({"id": f"file/ips/{n}", "fam": "ipsfile", "n": n})
+    for n in range(0, (3 if tier == "quick" else 4) + 1):
+        out.append({"id": f"file/ips-noheader/{n}", "fam": "ipsfile", "n": n, "noheader": True})
     out.append({"id": "expand/for", "fam": "for"})
     out.append({"id": "expand/nested-for", "fam": "for2"})
     out.append({"id": "expand/recursive-macro", "fam": "rec"})
@@ -199,6 +211,24 @@ def run(spec, cx):
             return "parsed"
 
         return guarded(spec["k"] * 4, parse)
+    if fam == "ipsfile":
+        from harness.common import virtual_files
+
+        n = spec["n"]
+        head = [] if spec.get("noheader") else list(b"PATCH")
+        if spec.get("first") == "plain":
+            head += [cx.char("a0"), cx.char("a1"), cx.char("a2"), 0, 1, cx.char("d0")]
+        elif spec.get("first") == "rle":
+            head += [cx.char("a0"), cx.char("a1"), cx.char("a2"), 0, 0, 0, cx.char("n0", [0, 1, 2, 3]), cx.char("d0")]
+        content = cx.bytes_(head + [cx.char(f"c{i}") for i in range(n)])
+        with virtual_files(cx, {"p.ips": content}):
+            if spec.get("unit"):
+                # the record-reading loop alone (the blocks it yields are then written like any other: C13)
+                from a816.parse.nodes import IncludeIpsNode
+
+                prog = new_program()
+                return guarded(n + 30, lambda: "read:%d" % len(IncludeIpsNode("p.ips", prog.resolver, None).blocks))
+            return guarded(n + 30, lambda: _drive("asm", "*=0x8000\n.include_ips 'p.ips', 0\nnop\n"))
     if fam == "for":
         a, b = cx.int("a", -2, 8), cx.int("b", -2, 8)
         p = new_program(syms={"a": a, "b": b})
